@@ -554,8 +554,83 @@ func (w *c01World) Run(c *kernel.RunCtx) {
 	if !c.Failed() {
 		w.appendEdit(c, txs[0], extended)
 	}
+	if !c.Failed() && c.RunIdx%29 == 3 {
+		w.quotas(c)
+	}
 	if !c.Failed() && len(data) < 4000 {
 		w.wild(c, data)
+	}
+}
+
+// quotas: shapes the seeded generator reaches too rarely. (a) A field longer than the decoder's read chunk that ENDS
+// the stream, on readers that deliver the last bytes together with io.EOF, through the per-part decoders. (b) A
+// counted list of thousands of transactions followed by other data on the same reader: the list decoder must not
+// take a byte more than the list.
+func (w *c01World) quotas(c *kernel.RunCtx) {
+	c.Begin("quotas")
+	n := 65537 + c.Choose(200000)
+	kind := c.Choose(6)
+	seed := c.U64n(1 << 32)
+	nlist := 5000 + c.Choose(3000)
+	lkind := c.Choose(6)
+	c.End()
+	script := make([]byte, n)
+	for i := range script {
+		script[i] = byte(i*13 + n)
+	}
+	plan := kernel.Plan{Kind: kind, Seed: seed, EOFWith: true}
+	{
+		body := append([]byte{1, 2, 3, 4, 5, 6, 7, 8}, models.VarInt(uint64(n))...)
+		body = append(body, script...)
+		st := kernel.NewStream(body, plan)
+		o := &bt.Output{}
+		var got int64
+		var err error
+		c.Exec()
+		if pn := catch(func() { got, err = o.ReadFrom(st) }); pn != "" || err != nil || int(got) != len(body) || st.Supplied != len(body) || !sameBytes(scriptBytes(o.LockingScript), script) {
+			c.Fail("decode", "Output.ReadFrom", "an output with a %d-byte script that ends the stream (last bytes delivered together with io.EOF, plan %s): panic=%q err=%v n=%d supplied=%d of %d", n, plan, pn, err, got, st.Supplied, len(body))
+			return
+		}
+	}
+	{
+		var body []byte
+		body = append(body, make([]byte, 32)...)
+		body = append(body, 1, 0, 0, 0)
+		body = append(body, 1, 0x51)
+		body = append(body, 0xfe, 0xff, 0xff, 0xff)
+		body = append(body, 9, 0, 0, 0, 0, 0, 0, 0)
+		body = append(body, models.VarInt(uint64(n))...)
+		body = append(body, script...)
+		st := kernel.NewStream(body, plan)
+		in := &bt.Input{}
+		var got int64
+		var err error
+		c.Exec()
+		if pn := catch(func() { got, err = in.ReadFromExtended(st) }); pn != "" || err != nil || int(got) != len(body) || st.Supplied != len(body) || !sameBytes(scriptBytes(in.PreviousTxScript), script) || in.PreviousTxSatoshis != 9 {
+			c.Fail("decode", "Input.ReadFromExtended", "an extended input with a %d-byte previous script that ends the stream (plan %s): panic=%q err=%v n=%d supplied=%d of %d", n, plan, pn, err, got, st.Supplied, len(body))
+			return
+		}
+	}
+	c.Count("probe.big_field_ends_stream_with_eof", 1)
+	{
+		one, _ := (&models.RTx{Version: 2, Lock: 7}).Encode(false, nil)
+		list := append([]byte(nil), models.VarInt(uint64(nlist))...)
+		for i := 0; i < nlist; i++ {
+			list = append(list, one...)
+		}
+		end := len(list)
+		list = append(list, make([]byte, 150000)...) // what follows on the caller's reader
+		lp := kernel.Plan{Kind: lkind, Seed: seed ^ 0x77}
+		st := kernel.NewStream(list, lp)
+		var l bt.Txs
+		var got int64
+		var err error
+		c.Exec()
+		if pn := catch(func() { got, err = l.ReadFrom(st) }); pn != "" || err != nil || len(l) != nlist || int(got) != end || st.Supplied != end {
+			c.Fail("consumed", "Txs.ReadFrom", "a counted list of %d transactions (%d bytes) followed by other data (plan %s): panic=%q err=%v decoded=%d reported=%d, the reader was advanced to %d", nlist, end, lp, pn, err, len(l), got, st.Supplied)
+			return
+		}
+		c.Count("probe.list_of_thousands_with_data_after_it", 1)
 	}
 }
 
@@ -1170,6 +1245,26 @@ func (w *c01World) apiBuilt(c *kernel.RunCtx, m *models.RTx, extended bool) {
 			c.Count("probe.output_helper_routes", 1)
 			continue
 		}
+		if style == 1 {
+			// one object used in two places: an exact duplicate of an earlier output is the same *Output (or at least
+			// shares its *Script) — documented nowhere as forbidden, and both places must be serialised
+			shared := false
+			for j := 0; j < k && j < len(tx.Outputs); j++ {
+				if sameBytes(m.Outs[j].Script, o.Script) && len(o.Script) > 0 {
+					if m.Outs[j].Sats == o.Sats && k%2 == 0 {
+						tx.AddOutput(tx.Outputs[j])
+					} else {
+						tx.AddOutput(&bt.Output{Satoshis: o.Sats, LockingScript: tx.Outputs[j].LockingScript})
+					}
+					shared = true
+					c.Count("probe.one_object_in_two_outputs", 1)
+					break
+				}
+			}
+			if shared {
+				continue
+			}
+		}
 		tx.AddOutput(&bt.Output{Satoshis: o.Sats, LockingScript: scriptPtr(o.Script)})
 	}
 	// per-part serialisers and the size getter must agree with the reference encoding of the same parts
@@ -1300,7 +1395,11 @@ func (w *c01World) fieldDecoders(c *kernel.RunCtx, m *models.RTx, extended bool)
 			start = 11
 		}
 		body := append([]byte(nil), b[start:len(b)-5]...)
-		body = append(body, 0xAA, 0xBB) // something after it on the same reader
+		tail := 2
+		if (c.RunIdx/16)%2 == 1 {
+			tail = 0 // the unit ends the stream: its last bytes may arrive together with io.EOF
+		}
+		body = append(body, []byte{0xAA, 0xBB}[:tail]...) // something after it on the same reader
 		plan := kernel.DrawPlan(c.Tape)
 		st := kernel.NewStream(body, plan)
 		in := &bt.Input{}
@@ -1314,8 +1413,8 @@ func (w *c01World) fieldDecoders(c *kernel.RunCtx, m *models.RTx, extended bool)
 				n, err = in.ReadFrom(st)
 			}
 		})
-		if p != "" || err != nil || int(n) != len(body)-2 || st.Supplied != len(body)-2 {
-			c.Fail("consumed", "Input.ReadFrom", "Input.ReadFrom(extended=%v) panic=%q err=%v n=%d supplied=%d want %d (plan %s)", extended, p, err, n, st.Supplied, len(body)-2, plan)
+		if p != "" || err != nil || int(n) != len(body)-tail || st.Supplied != len(body)-tail {
+			c.Fail("consumed", "Input.ReadFrom", "Input.ReadFrom(extended=%v) panic=%q err=%v n=%d supplied=%d want %d (plan %s, %d bytes follow on the reader)", extended, p, err, n, st.Supplied, len(body)-tail, plan, tail)
 			return
 		}
 		tmp := &bt.Tx{Inputs: []*bt.Input{in}}
@@ -1328,7 +1427,11 @@ func (w *c01World) fieldDecoders(c *kernel.RunCtx, m *models.RTx, extended bool)
 		one := &models.RTx{Outs: m.Outs[:1]}
 		b, _ := one.Encode(false, nil)
 		body := append([]byte(nil), b[6:len(b)-4]...)
-		body = append(body, 0xCC)
+		tail := 1
+		if (c.RunIdx/16)%2 == 1 {
+			tail = 0
+		}
+		body = append(body, []byte{0xCC}[:tail]...)
 		plan := kernel.DrawPlan(c.Tape)
 		st := kernel.NewStream(body, plan)
 		o := &bt.Output{}
@@ -1336,8 +1439,8 @@ func (w *c01World) fieldDecoders(c *kernel.RunCtx, m *models.RTx, extended bool)
 		var err error
 		c.Exec()
 		p := catch(func() { n, err = o.ReadFrom(st) })
-		if p != "" || err != nil || int(n) != len(body)-1 || st.Supplied != len(body)-1 {
-			c.Fail("consumed", "Output.ReadFrom", "Output.ReadFrom panic=%q err=%v n=%d supplied=%d want %d (plan %s)", p, err, n, st.Supplied, len(body)-1, plan)
+		if p != "" || err != nil || int(n) != len(body)-tail || st.Supplied != len(body)-tail {
+			c.Fail("consumed", "Output.ReadFrom", "Output.ReadFrom panic=%q err=%v n=%d supplied=%d want %d (plan %s, %d bytes follow on the reader)", p, err, n, st.Supplied, len(body)-tail, plan, tail)
 			return
 		}
 		if o.Satoshis != m.Outs[0].Sats || !sameBytes(scriptBytes(o.LockingScript), m.Outs[0].Script) {
@@ -1345,7 +1448,7 @@ func (w *c01World) fieldDecoders(c *kernel.RunCtx, m *models.RTx, extended bool)
 			return
 		}
 		var ob []byte
-		if p := catch(func() { ob = o.Bytes() }); p != "" || !sameBytes(ob, body[:len(body)-1]) {
+		if p := catch(func() { ob = o.Bytes() }); p != "" || !sameBytes(ob, body[:len(body)-tail]) {
 			c.Fail("reserialise", "Output.Bytes", "Output.Bytes differs from the reference encoding (panic=%q)", p)
 		}
 	}
